@@ -280,6 +280,47 @@ def witness_levels(ctx):
     M.op('configure', False)
 
 
+def failed_guarded(ctx, n):
+    """`image`, `preimage` and `copy` switch reordering requests off while they run; when
+    they FAIL (overlapping rename, undeclared variable, a function of a variable the target
+    lacks) the threshold must be back: dynamic reordering is enabled afterwards iff it was"""
+    rng = ctx.rng
+    order = list(range(n))
+    rng.shuffle(order)
+    M = Mgr(ctx, f'failed guarded call n={n} order={order}', n, order)
+    s = M.s
+    t = rng.getrandbits(1 << n) | 1
+    u = M.build(t)
+    if u is None or abs(u) == 1:
+        return
+    M.op('incref', u)
+    # a source manager with one more variable
+    s.op(1, 'new', {v: l for v, l in zip(range(n + 1), range(n + 1))})
+    w = gen.build_tt(s, 1, (rng.getrandbits(1 << (n + 1)) | 2) ^ 1, list(range(n + 1)))
+    for k in (1, 3, 7):
+        M.op('configure', True)
+        M.op('set_last_len', k)
+        calls = [('image', (u, u, 'n', {0: 1 % n, 1 % n: 0}, 'n', [0], False)),
+                 ('preimage', (u, u, 'n', {0: 1 % n, 1 % n: 0}, 'n', [0], False)),
+                 ('image', (u, u, 'n', {0: 1 % n}, 'n', [n + 5], False))]
+        if w is not None and abs(w) != 1:
+            calls.append(('copy', (1, w)))
+        name, args = rng.choice(calls)
+        r = M.op(name, *args)
+        ctx.case(('failed-guarded', n, name, k), True)
+        ctx.count('failed-guarded:' + name + (':accepted' if r is not None else ''))
+        if r is None and (M.b._last_len != k or not M.b.configure()['reordering']):
+            ctx.violation('C09:reordering-disabled',
+                          f'after the failed {name} (threshold {k}) dynamic reordering is '
+                          f'{"on" if M.b._last_len is not None else "OFF"} with threshold {M.b._last_len}', M.case())
+            break
+        if M.tt(u) != t:
+            ctx.violation('C09:operand-changed', f'held reference changed by the failed {name}', M.case())
+            break
+        M.op('configure', False)
+    M.op('decref', u)
+
+
 def run(ctx):
     q = ctx.quick
     rng = ctx.rng
@@ -313,6 +354,10 @@ def run(ctx):
     # of 6 variables while requests fire naturally: sifting MOVES the quantified variables
     from . import C03
     C03.reordering_stream(ctx, 6, 12 if q else 80, P='C09')
+    # calls that run with requests DISABLED (image / preimage / copy) and fail: dynamic
+    # reordering is still enabled afterwards, at the same threshold
+    for _ in range(4 if q else 30):
+        failed_guarded(ctx, rng.choice([3, 4]))
     # a decorated call whose RETRY (after the served request) raises a genuine error:
     # the caller sees that error and reordering is still enabled afterwards
     from . import C17
